@@ -6,6 +6,7 @@ import (
 	"fmt"
 	"reflect"
 	"strconv"
+	"strings"
 
 	"github.com/mattn/anko/ast"
 	"github.com/mattn/anko/env"
@@ -209,10 +210,25 @@ func decimalStringToNum(v reflect.Value) (reflect.Value, bool) {
 	if i, err := strconv.ParseInt(s, 10, 64); err == nil {
 		return reflect.ValueOf(i), true
 	}
+	// ParseFloat also reads hexadecimal floats, underscores, "Inf" and "NaN":
+	// none of those is a decimal numeral
+	if strings.Trim(s, "0123456789+-.eE") != "" {
+		return v, false
+	}
 	if f, err := strconv.ParseFloat(s, 64); err == nil {
 		return reflect.ValueOf(f), true
 	}
 	return v, false
+}
+
+// isExactInt64 reports whether an integer can be the number a numeral read as
+// the float f denotes: f must be that very integer, not merely round to the
+// same float64 (a float number always can).
+func isExactInt64(num reflect.Value, f float64) bool {
+	if k := num.Kind(); k == reflect.Float32 || k == reflect.Float64 {
+		return true
+	}
+	return f >= -9223372036854775808.0 && f < 9223372036854775808.0 && int64(f) == toInt64(num)
 }
 
 // equal returns true when lhsV and rhsV is same value.
@@ -248,10 +264,16 @@ func equal(lhsV, rhsV reflect.Value) bool {
 			// Couldn't convert RHS to a number, they can't be compared.
 			return false
 		}
+		if rhsV.Kind() == reflect.Float64 && !isExactInt64(lhsV, rhsV.Float()) {
+			return false
+		}
 	} else if lhsV.Kind() == reflect.String && isNum(rhsV) {
 		var ok bool
 		lhsV, ok = decimalStringToNum(lhsV)
 		if !ok {
+			return false
+		}
+		if lhsV.Kind() == reflect.Float64 && !isExactInt64(rhsV, lhsV.Float()) {
 			return false
 		}
 	}
